@@ -248,6 +248,12 @@ def run(A, R: Report, thorough: bool):
     else:
         R.check(idx_repr < idx_str, 'R02.5', 'repr_from_instantiation', key_of('repr-before-str'), 'hasattr(obj, "repr") tested before isinstance(obj, str)',
                 'the plain-string branch shadows placeholder strings (ReprStr is a str): substituted values would leak into the key', where=where(K.f_rfi))
+    idx_inst = next((i for i, c in enumerate(order) if c[0] == 'call' and c[1] in ('hasattr', 'builtins.hasattr') and ('lit', '_taskchain_instantiate_repr') in c[2]), None)
+    if idx_repr is not None and idx_inst is not None:
+        R.check(idx_repr < idx_inst, 'R02.5', 'repr_from_instantiation: object definitions', key_of('repr-before-instantiate-repr'),
+                'an object\'s canonical repr is used before the text of its definition',
+                'the text an object was instantiated from (argument order, positional vs keyword, ignored arguments as written) is used although the object has a canonical repr: equal parameter values written differently get different keys',
+                where=where(K.f_rfi))
     rs = A.cls('ReprStr')
     frepr = rs.methods.get('__repr__')
     R.require(frepr is not None, 'anchor ReprStr.__repr__ missing')
